@@ -23,6 +23,7 @@ import (
 	"io/fs"
 	"os"
 	"os/exec"
+	osuser "os/user"
 	"path/filepath"
 	"regexp"
 	"sort"
@@ -132,6 +133,9 @@ func caseList(thorough bool) []kase {
 				}
 				for _, s := range supplies {
 					out = append(out, kase{caseIn{v.Fn, v.ID, k, cx, s}, v})
+				}
+				if k == 0 && (cx == "top" || cx == "spawn" || cx == "host-call") && v.Fn != "os.exit" {
+					out = append(out, kase{caseIn{v.Fn, v.ID, k, cx, "decline"}, v})
 				}
 			}
 		}
@@ -473,6 +477,9 @@ func runCase(idx int, c kase, detail bool) (out caseOut) {
 	// standard streams at some later, unattributable moment. The worker process is short-lived.
 	ctx := context.Background()
 	opts := []risor.Option{risor.WithConcurrency()}
+	if supply == "decline" {
+		return runDeclined(idx, c, v, cx, tag, detail)
+	}
 	if supply == "opt" || supply == "both" {
 		optOS = newRecOS("opt", tag)
 		opts = append(opts, risor.WithOS(optOS))
@@ -549,6 +556,57 @@ func runCase(idx int, c kase, detail bool) (out caseOut) {
 		}
 	}
 	return out
+}
+
+// runDeclined runs the case against a host OS that answers every question about users, groups, the host
+// name and the standard directories with an error (and whose environment names the real account root). What
+// the script gets is then an error or something derived from the supplied OS; the real machine's home
+// directory, host name or working directory in the answer can only have come from the real OS.
+func runDeclined(idx int, c kase, v variant, cx string, tag byte, detail bool) (out caseOut) {
+	out.I = idx
+	o := newRecOS("opt", tag)
+	o.decline = true
+	got, errText := execute(context.Background(), v, cx, []risor.Option{risor.WithConcurrency(), risor.WithOS(o)})
+	out.Got, out.Err, out.Served = got, errText, "opt"
+	if detail {
+		out.Log = o.in.snapshot()
+		out.Src, _ = sources(v, cx)
+	}
+	if got == "PANIC" {
+		out.Fails = append(out.Fails, fail{"panic", "panic escaped the evaluation", ev.Clip(errText, 600), "value or error"})
+	}
+	seen := got + "\n" + errText + "\n" + o.stdoutText() + "\n" + o.stderrText()
+	for what, datum := range realData() {
+		if strings.Contains(seen, datum) {
+			out.Fails = append(out.Fails, fail{"real-data", "the host OS declined every query, yet the script saw the real machine's " + what, ev.Clip(seen, 600), "an error, or data of the supplied OS"})
+		}
+	}
+	return out
+}
+
+var realDataOnce sync.Once
+var realDataMap map[string]string
+
+// realData: strings that identify the real machine and that the recording OS never hands out.
+func realData() map[string]string {
+	realDataOnce.Do(func() {
+		realDataMap = map[string]string{}
+		if u, err := osuser.Current(); err == nil {
+			if len(u.HomeDir) >= 4 {
+				realDataMap["home directory of the real user"] = u.HomeDir
+			}
+		}
+		if u, err := osuser.Lookup("root"); err == nil && len(u.HomeDir) >= 4 {
+			realDataMap["home directory of root"] = u.HomeDir
+		}
+		if h, err := os.Hostname(); err == nil && len(h) >= 4 {
+			realDataMap["host name"] = h
+		}
+		if d, err := os.Getwd(); err == nil && len(d) >= 6 {
+			realDataMap["working directory"] = d
+		}
+	})
+	return realDataMap
 }
 
 // ---------------------------------------------------------------- real-process observation (worker side)
@@ -1341,7 +1399,7 @@ func Check(r *ev.Run, replay string) {
 		m, mod := sources(cases[i].v, cases[i].in.Ctx)
 		r.Sample(map[string]any{"case": cases[i].in, "main": m, "module": mod, "want": cases[i].v.Want, "log": cases[i].v.Log, "post": cases[i].v.Post})
 	}
-	r.Set("rule", fmt.Sprintf("every discovered function of os (%d attrs), filepath, fmt, the print/printf/errorf/sprintf and shell-style builtins and every attribute of file objects from open/create/stdin/stdout (%d names, %d with templates, %d skipped with reason) x %d argument tuples per spelling x path spellings %v x %d contexts %v (thorough adds 240 composed contexts x plain spelling: definitions in main|module x entry by Eval|clone.Run|clone.Call|risor.Call x chains of 1..2 links over direct|spawn|go|callback|try) x OS supplied by {WithOS, context, both}; plus 81 reused-VM contexts (first run with no/option/context OS A, then the case as second run on the same VM with OS B by vm.RunCode option | risor.WithVM+WithOS | context, entered by RunCode | incremental Run | vm.Call | risor.Call, directly | in a spawned goroutine | in an imported module; B alone must serve) x every third template (quick) / all templates (thorough); each case in a worker process against fresh recording OS instances: expected calls logged in order, answer observed, post-state, real cwd/env/sentinel tree//,TMPDIR/stdio untouched; thorough: all workers under strace -f -e trace=%%file,%%process, no syscall argument contains the marker. distinct = (function, tuple, serving instance, answer) and (context, supply, serving instance) keys",
+	r.Set("rule", fmt.Sprintf("every discovered function of os (%d attrs), filepath, fmt, the print/printf/errorf/sprintf and shell-style builtins and every attribute of file objects from open/create/stdin/stdout (%d names, %d with templates, %d skipped with reason) x %d argument tuples per spelling x path spellings %v x %d contexts %v (thorough adds 240 composed contexts x plain spelling: definitions in main|module x entry by Eval|clone.Run|clone.Call|risor.Call x chains of 1..2 links over direct|spawn|go|callback|try) x OS supplied by {WithOS, context, both}; every template also (top level, spawned, risor.Call) against a supplied OS that answers every user / group / host name / standard directory query with an error while its environment names the real account root - the answer must not contain the real machine's home directories, host name or working directory; plus 81 reused-VM contexts (first run with no/option/context OS A, then the case as second run on the same VM with OS B by vm.RunCode option | risor.WithVM+WithOS | context, entered by RunCode | incremental Run | vm.Call | risor.Call, directly | in a spawned goroutine | in an imported module; B alone must serve) x every third template (quick) / all templates (thorough); each case in a worker process against fresh recording OS instances: expected calls logged in order, answer observed, post-state, real cwd/env/sentinel tree//,TMPDIR/stdio untouched; thorough: all workers under strace -f -e trace=%%file,%%process, no syscall argument contains the marker. distinct = (function, tuple, serving instance, answer) and (context, supply, serving instance) keys",
 		len(moduleAttrsOS()), len(names), len(have), len(skipped), len(variants(0)), spellings(thorough), len(contexts), contexts))
 }
 
